@@ -23,7 +23,6 @@ Definition c10_spec_binop (n : nat) (o : c10_binop) (a b : N) : option N :=
   | OpXor => Some (N.lxor a b)
   end.
 
-Inductive c10_cmpop := CmpLt | CmpLe | CmpGt | CmpGe | CmpEq | CmpNe.
 Definition c10_spec_cmp (o : c10_cmpop) (a b : N) : bool :=
   match o with
   | CmpLt => a <? b | CmpLe => a <=? b | CmpGt => b <? a | CmpGe => b <=? a
@@ -48,3 +47,32 @@ Definition c10_hexval (l : list ascii) : N := fold_left (fun v c => v * 16 + c10
 Definition c10_spec_sigdigits (v : N) : N := if v =? 0 then 0 else N.log2 v / c10_bits + 1.
 Definition c10_spec_todouble (v : N) : N * N :=
   let e := c10_bits * (c10_spec_sigdigits v - c10_param_double_digits / c10_bits) in (v / 2 ^ e, e).
+
+(* ---------- histories: the instruction set of C10_Model.c10_instr interpreted on NUMBERS.
+   Registers are values in [0, 2^w); an instruction that reports (zero divisor, negative built-in operand)
+   leaves every register as it was. *)
+Definition c10_spec_res_of (o : option N) : N + c10_event :=
+  match o with Some v => inl v | None => inr C10_EvMathError end.
+Definition c10_spec_step (n : nat) (i : c10_instr) (st : list N * list c10_event) : list N * list c10_event :=
+  let '(rs, ev) := st in
+  let M := 2 ^ c10_spec_width n in
+  let r x := nth x rs 0 in
+  let fin d (x : N + c10_event) := match x with inl v => (c10_upd rs d v, ev) | inr e => (rs, ev ++ [e]) end in
+  match i with
+  | C10_ICompound o d s => fin d (c10_spec_res_of (c10_spec_binop n o (r d) (r s)))
+  | C10_IBinary o d s t => fin d (c10_spec_res_of (c10_spec_binop n o (r s) (r t)))
+  | C10_IIncr d => fin d (inl ((r d + 1) mod M))
+  | C10_INot d s => fin d (inl (M - 1 - r s))
+  | C10_IShl d s c => fin d (inl (c10_spec_shift n true (r s) c))
+  | C10_IShr d s c => fin d (inl (c10_spec_shift n false (r s) c))
+  | C10_ICopy d s => fin d (inl (r s))
+  | C10_ISwap d s => (c10_upd (c10_upd rs d (r s)) s (r d), ev)
+  | C10_IBuiltinU o d u => fin d (c10_spec_res_of (c10_spec_binop n o (r d) (u mod M)))
+  | C10_IBuiltinS o d y => if (y <? 0)%Z then (rs, ev ++ [C10_EvException])
+                           else fin d (c10_spec_res_of (c10_spec_binop n o (r d) (Z.to_N y mod M)))
+  | C10_IBuiltinLeft o d u => fin d (c10_spec_res_of (c10_spec_binop n o (u mod M) (r d)))
+  | C10_ICmp c d s => (rs, ev ++ [C10_EvBool (c10_spec_cmp c (r d) (r s))])
+  | C10_ICmpU c d u => (rs, ev ++ [C10_EvBool (c10_spec_cmp c (r d) (u mod M))])
+  end.
+Definition c10_spec_run (n : nat) (prog : list c10_instr) (st : list N * list c10_event) : list N * list c10_event :=
+  fold_left (fun s i => c10_spec_step n i s) prog st.
